@@ -234,9 +234,8 @@ func (t *tokenizer) Next() error {
 			t.unread(c)
 			return t.ok(tokenSymbolOperator, true)
 		}
-		if c2 == ' ' || isIdentifierPart(c2) {
-			t.unread(c)
-		}
+		// Whatever follows, the '.' itself is the operator's text and is read with the value.
+		t.unread(c)
 
 		return t.ok(tokenDot, false)
 
